@@ -27,18 +27,30 @@ type Mutex struct {
 	st   verifrt.MuState
 }
 
-func (m *Mutex) Lock()   { verifrt.MuLock(&m.st); m.real.Lock() }
-func (m *Mutex) Unlock() { verifrt.MuUnlock(&m.st); m.real.Unlock() }
+func (m *Mutex) Lock() { verifrt.MuLock(&m.st); m.real.Lock() }
+func (m *Mutex) Unlock() {
+	if verifrt.MuUnlock(&m.st) {
+		m.real.Unlock()
+	}
+}
 
 type RWMutex struct {
 	real sync.RWMutex
 	st   verifrt.RWState
 }
 
-func (m *RWMutex) Lock()    { verifrt.RWLock(&m.st); m.real.Lock() }
-func (m *RWMutex) Unlock()  { verifrt.RWUnlock(&m.st); m.real.Unlock() }
-func (m *RWMutex) RLock()   { verifrt.RWRLock(&m.st); m.real.RLock() }
-func (m *RWMutex) RUnlock() { verifrt.RWRUnlock(&m.st); m.real.RUnlock() }
+func (m *RWMutex) Lock() { verifrt.RWLock(&m.st); m.real.Lock() }
+func (m *RWMutex) Unlock() {
+	if verifrt.RWUnlock(&m.st) {
+		m.real.Unlock()
+	}
+}
+func (m *RWMutex) RLock() { verifrt.RWRLock(&m.st); m.real.RLock() }
+func (m *RWMutex) RUnlock() {
+	if verifrt.RWRUnlock(&m.st) {
+		m.real.RUnlock()
+	}
+}
 
 type rlocker RWMutex
 
